@@ -56,6 +56,16 @@ def cases(tier, seed, ctx=None):
         ops = [G.Construct] + [G.Feed(seg) for seg in rng.partition(stream)]
         meta = [1, r["method"], r["raw"], r["path"], [[k, v] for k, v in r["query"]], [[k, v] for k, v in r["sent"]], r["cl"]]
         yield ("sock", [G.NOPOL, ops, G.env_for(ver, tab, [r["raw"]]), meta], "sock-accessors")
+    # targets whose decoding is QUrl's business (tabulated): query items without '=', empty items and names, repeated separators,
+    # '+' and ';', escapes next to plain items, fragments - what the application is told must be what QUrl / QUrlQuery say
+    QS = [b"flag&a=1", b"a=1&flag", b"flag", b"a&b", b"a&b&c=d", b"a&&b=1", b"&a=1", b"a=1&", b"=v&k", b"k=&a=1", b"a==b&c", b"a=b=c&d", b"a+b=c+d&e",
+          b"a;b=1&c", b"x&y=%20&z", b"x=%26&y", b"flag&a=%41", b"a=1#frag&b", b"a=1&a=2&a", b"a&a&a", b"%61&b=1", b"?&?", b"a=1&flag&b=2"]
+    otargets = [rng.choice([b"/p", b"/", b"/a/b"]) + b"?" + q for q in QS]
+    over, otab = G.oracle(ctx, otargets)
+    for t in otargets:
+        head = rng.choice([b"GET ", b"POST "]) + t + b" HTTP/1.1\r\nHost: h"
+        ops = [G.Construct] + [G.Feed(seg) for seg in rng.partition(head + b"\r\n\r\n", 3)]
+        yield ("sock", [G.NOPOL, ops, G.env_for(over, otab, [t]), [9, t]], "sock-query-shapes")
     # declared lengths at and beyond the 32-bit limits (no body is sent: only what the application is told counts)
     for big in (2**31 - 1, 2**31, 2**31 + 1, 2**32 - 1, 2**32, 5 * 2**30, 2**53, 2**63 - 1):
         for nm in (b"Content-Length", b"content-length"):
